@@ -139,10 +139,77 @@ def run(seed, n_random, stats):
                                    "why": "parse_row splits %r into %r, the documented grammar says %r" % (text, got, exp)})
             if len(stats.samples) < 4:
                 stats.samples.append({"line": text, "expected": exp, "library": a})
+    mm4, vv4 = run_stt(exe, seed, 150 if n_random <= 2000 else 1500, stats)
+    mismatches += mm4
+    violations += vv4
     mm2, vv2 = run_guards(seed, 49 if n_random <= 2000 else 409, stats)
     import fecheck
     mm3, vv3 = fecheck.run(seed, 20 if n_random <= 2000 else 240, stats)
     return mismatches + mm2 + mm3, violations + vv2 + vv3
+
+# ---------------------------------------------------------------------------------------------------
+# whole descriptions: parse_stt<t> selects the t-th transition line (a line with "->" and without "[*]")
+def gen_description(rng):
+    """returns (text, expected rows): transition lines of the grammar mixed with initial / terminate lines, entry /
+    exit / flag lines, region separators, frame lines and empty lines; with or without a final line end"""
+    lines, rows = [], []
+    for _ in range(rng.randint(1, 9)):
+        k = rng.random()
+        if k < 0.5:
+            text, exp = gen_line(rng)
+            lines.append(text)
+            rows.append(exp)
+        elif k < 0.62:
+            lines.append(pad(rng) + "[*]" + pad(rng, 1, 3) + "-" * rng.randint(1, 4) + ">" + pad(rng, 1, 3) + ident(rng))
+        elif k < 0.74:
+            lines.append(pad(rng) + ident(rng) + pad(rng, 1, 3) + "-" * rng.randint(1, 4) + ">" + pad(rng, 1, 3) + "[*]" + pad(rng))
+        elif k < 0.84:
+            lines.append(ident(rng) + " : " + rng.choice(["entry", "exit", "flag"]) + " " + ident(rng))
+        elif k < 0.9:
+            lines.append(rng.choice(["--", "@startuml x", "state x{", "}", "@enduml"]))
+        else:
+            lines.append(pad(rng))
+    text = "\n".join(lines) + ("\n" if rng.random() < 0.6 else "")
+    return text, rows
+
+def run_stt(exe, seed, n, stats):
+    rng = random.Random("stt/%d" % seed)
+    cases = [gen_description(rng) for _ in range(n)]
+    inp = "\n".join(t.replace("\n", "\x1e") for t, _ in cases) + "\n"
+    impl = subprocess.run([exe, "stt"], input=inp, capture_output=True, text=True, timeout=120).stdout.split("\n")
+    model = subprocess.run([corr.MODEL, "stt"], input=inp, capture_output=True, text=True, timeout=300).stdout.split("\n")
+    mismatches, violations = [], []
+    for i, (text, rows) in enumerate(cases):
+        a = impl[i] if i < len(impl) else None
+        b = model[i] if i < len(model) else None
+        stats.evaluations += 1
+        stats.traces += 1
+        stats.dist[("description: transition lines", min(len(rows), 6))] += 1
+        if a != b:
+            mismatches.append({"machine": "puml description", "cfg": "puml", "kind": "trace",
+                               "detail": {"text": text, "impl": a, "model": b}, "md": None, "ops": [text]})
+        if a is None or a == "THROW":
+            violations.append({"machine": "puml description", "cfg": "puml", "md": None, "ops": [text],
+                               "why": "parse_stt throws on a description of the documented grammar"})
+            continue
+        f = a.split("\x1f")
+        for t in range(6):
+            got = f[6 * t + 1: 6 * t + 6]
+            if t < len(rows):
+                e = rows[t]
+                # the action field is the trimmed text behind '/', compared through its first action here
+                ok = len(got) == 5 and got[0] == e["source"] and got[1] == e["target"] and got[2] == e["event"] and got[3] == e["guard"] \
+                    and [x.strip(" \t-") for x in got[4].split(",")] == (e["actions"] or [""])
+                if ok:
+                    stats.nontrivial.add(("stt", text, t))
+                why = "parse_stt<%d> of %r returns %r, the %d-th transition line is %r" % (t, text, got, t, e)
+            else:
+                ok = got == ["", "", "", "", ""]
+                why = "parse_stt<%d> of %r returns %r although the description has only %d transition lines" % (t, text, got, len(rows))
+            if not ok:
+                violations.append({"machine": "puml description", "cfg": "puml", "md": None, "ops": [text], "why": why})
+                break
+    return mismatches, violations
 
 # ---------------------------------------------------------------------------------------------------
 # guard expressions: the grammar of C++ precedence (or-chains of and-chains of unary expressions), any nesting
